@@ -23,6 +23,12 @@ pub struct Dumper<'a> {
   pub loc_mismatch: Vec<String>,
   /// (expression form, child position) pairs that directly hold a local-variable use
   pub var_positions: std::collections::BTreeSet<String>,
+  /// type parameters in scope at the point being dumped (class parameters for the class header and
+  /// its methods, a member's own parameters for that member; a static function sees only its own)
+  pub tparam_scope: Vec<PStr>,
+  /// annotation identifiers the parser classified against that rule: `T::Generic` of a name that is
+  /// not a type parameter in scope, or a plain nominal `T::Id` of a name that is one
+  pub tparam_mismatch: Vec<String>,
 }
 
 impl<'a> Dumper<'a> {
@@ -36,6 +42,8 @@ impl<'a> Dumper<'a> {
       occurrences: Vec::new(),
       loc_mismatch: Vec::new(),
       var_positions: std::collections::BTreeSet::new(),
+      tparam_scope: Vec::new(),
+      tparam_mismatch: Vec::new(),
     };
     d.loc(&Location::dummy()); // id 0 = dummy
     d
@@ -110,6 +118,13 @@ impl<'a> Dumper<'a> {
     self.open(if m.is_method { "method" } else { "function" }, Some(m.name.name), nl);
     let l = self.loc(&m.loc);
     self.leaf("x", None, l);
+    let saved_scope = self.tparam_scope.clone();
+    if !m.is_method {
+      self.tparam_scope.clear(); // a static function does not see the class's type parameters
+    }
+    for tp in m.type_parameters.iter().flat_map(|it| &it.parameters) {
+      self.tparam_scope.push(tp.name.name);
+    }
     self.tparams(m.type_parameters.as_ref());
     self.open("params", None, 0);
     for p in m.parameters.parameters.iter() {
@@ -129,6 +144,7 @@ impl<'a> Dumper<'a> {
     }
     self.close();
     self.close();
+    self.tparam_scope = saved_scope;
   }
 
   fn toplevel(&mut self, t: &Toplevel<()>) {
@@ -136,6 +152,7 @@ impl<'a> Dumper<'a> {
     self.open(if t.is_class() { "class" } else { "iface" }, Some(t.name().name), nl);
     let l = self.loc(&t.loc());
     self.leaf("x", None, l);
+    self.tparam_scope = t.type_parameters().iter().flat_map(|it| &it.parameters).map(|tp| tp.name.name).collect();
     self.tparams(t.type_parameters());
     self.open("sups", None, 0);
     for s in t.extends_or_implements_nodes().iter().flat_map(|it| &it.nodes) {
@@ -193,6 +210,13 @@ impl<'a> Dumper<'a> {
     match a {
       annotation::T::Primitive(_, _, _) => self.leaf("seq", None, 0),
       annotation::T::Id(id) => {
+        if id.type_arguments.is_none() && self.tparam_scope.contains(&id.id.name) {
+          self.tparam_mismatch.push(format!(
+            "{}@{}:type-parameter-parsed-as-class",
+            id.id.name.as_str(self.heap),
+            id.location.pretty_print_without_file()
+          ));
+        }
         if self.module_reference.eq(&id.module_reference) {
           let l = self.loc(&id.location);
           self.open("tyUse", Some(id.id.name), l);
@@ -205,6 +229,13 @@ impl<'a> Dumper<'a> {
         self.close();
       }
       annotation::T::Generic(_, id) => {
+        if !self.tparam_scope.contains(&id.name) {
+          self.tparam_mismatch.push(format!(
+            "{}@{}:generic-not-a-type-parameter-in-scope",
+            id.name.as_str(self.heap),
+            id.loc.pretty_print_without_file()
+          ));
+        }
         let l = self.loc(&id.loc);
         self.leaf("tyUse", Some(id.name), l);
       }
